@@ -354,9 +354,15 @@ func body(c *vk.Ctx) {
 			{"3r-drop", 3, budget{Edits: 3, Snaps: 1, Drops: 1}, 9, 3},
 		})
 	sawTwoHeads := false
-	for _, cfg := range cfgs {
+	for i, cfg := range cfgs {
 		c.Bound("config:"+cfg.Name, fmt.Sprintf("%+v depth<=%d", cfg.B, cfg.MaxDepth))
+		// thorough: every configuration gets an equal share of the time that is left (a configuration that closes
+		// early leaves its rest to the later ones); the quick bounds are sized to complete
+		if c.Thorough() {
+			c.Slice(len(cfgs) - i)
+		}
 		sawTwoHeads = search(c, f, cfg) || sawTwoHeads
+		c.EndSlice()
 	}
 	if sawTwoHeads {
 		c.Count("states_with_two_heads_seen_by_shards", 1)
